@@ -88,6 +88,8 @@ def pool():
         # every spelling SMT-LIB / z3 may read as an escape, as literal characters
         "\\u0041", "a\\u00e9b", "\\u{1F600}", "\\u{41", "\\u41", "\\U0041", "\\x{41}", "\\n", "\\u{0}", "\\ud83d\\ude00", "\\\\u0041",
     ]
+    # digits with a line end, carriage return or blank before or after them (none of these is a numeral)
+    texts += ["12\n", "0\n", "12\n\n", "\n12", "12\r", "12\r\n", "1\n2", "12\x0b", "12\x0c", "\t12", "12\x1c", "12\x85", "12\u2028", "１２", "1２"]
     # numerals longer than the interpreter's own limit for int <-> str conversion (4300 digits)
     texts += ["1" * 4300, "1" * 4301, "9" * 5000, "0" * 4400 + "7"]
     return [S(t) for t in texts]
